@@ -1121,7 +1121,10 @@ class Interp:
         if isinstance(v, str):
             return v[idx]
         if isinstance(v, Seq):
-            return v.elem(idx)
+            idx = idx.at(()) if isinstance(idx, Arr) and idx.ndim == 0 else idx
+            n = v.length
+            ctx.require('index', S.and_(S.ge(idx, S.neg(n)), S.lt(idx, n)), exc='IndexError')
+            return v.elem(S.ite(S.lt(idx, 0), S.add(idx, n), idx))
         key = 'getitem:' + type_name(v)
         if key in self.world.library:
             return self.world.library[key].fn(ctx, v, idx)
@@ -1265,6 +1268,8 @@ def select_any(items, i):
 
 
 def type_name(v):
+    if isinstance(v, Seq):
+        return 'Seq'
     if v is None:
         return 'NoneType'
     if isinstance(v, bool) or (S.is_z3(v) and z3.is_bool(v)):
